@@ -339,16 +339,29 @@ enum Half {
 }
 
 fn pawn_obligation(max_pawns: u32, half: Half) {
+    pawn_obligation_on(max_pawns, half, false, any_color())
+}
+
+/// `pushes_only`: no opposing piece on the board and no en-passant target, so that the four capture loops are
+/// constant-folded away by symbolic execution and only pushes, double steps and promotions remain
+fn pawn_obligation_on(max_pawns: u32, half: Half, pushes_only: bool, turn: Color) {
     unsafe {
         SEEDS = kani::any();
     }
-    let p: [u64; 16] = kani::any();
+    let mut p: [u64; 16] = kani::any();
+    if pushes_only {
+        let ob = color_u8(!turn) as usize * 8;
+        let mut k = 1;
+        while k <= 6 {
+            p[ob + k] = 0;
+            k += 1;
+        }
+    }
     kani::assume(boards_wf_unrolled(&p));
-    let turn = any_color();
     let pawns = p[pidx(turn, Piece::Pawn)];
     // legal-position facts the generator relies on: no pawn on the first or last rank
     kani::assume(pawns & 0xff00_0000_0000_00ff == 0 && pawns.count_ones() <= max_pawns);
-    let ep = any_opt_square();
+    let ep = if pushes_only { None } else { any_opt_square() };
     if let Some(t) = ep {
         // an en-passant target is an empty square on the sixth rank (from the mover's side) behind an enemy pawn
         let r = if turn == Color::White { 5 } else { 2 };
@@ -372,8 +385,8 @@ fn pawn_obligation(max_pawns: u32, half: Half) {
                 assert!(*result[j] != mv);
             }
         }
-        kani::cover!(i < result.len() && result[i].is_en_passant(), "en passant reachable");
-        kani::cover!(i < result.len() && result[i].is_promotion() && result[i].is_capture(), "capture-promotion reachable");
+        kani::cover!(pushes_only || (i < result.len() && result[i].is_en_passant()), "en passant reachable");
+        kani::cover!(pushes_only || (i < result.len() && result[i].is_promotion() && result[i].is_capture()), "capture-promotion reachable");
         kani::cover!(i < result.len() && result[i].is_double_pawn(), "double step reachable");
     } else {
         // completeness: any move value that the rules allow is in the list (scan written as nested short loops so that
@@ -394,9 +407,33 @@ fn pawn_obligation(max_pawns: u32, half: Half) {
             a += 1;
         }
         assert!(!wanted || found);
-        kani::cover!(wanted && cand.is_en_passant(), "en passant candidate reachable");
+        kani::cover!(pushes_only || (wanted && cand.is_en_passant()), "en passant candidate reachable");
         kani::cover!(wanted && cand.is_promotion(), "promotion candidate reachable");
     }
+}
+
+#[kani::proof]
+#[kani::unwind(9)]
+fn c01_k1_pawn_pushes_sound_white() {
+    pawn_obligation_on(8, Half::Sound, true, Color::White)
+}
+
+#[kani::proof]
+#[kani::unwind(9)]
+fn c01_k1_pawn_pushes_sound_black() {
+    pawn_obligation_on(8, Half::Sound, true, Color::Black)
+}
+
+#[kani::proof]
+#[kani::unwind(9)]
+fn c01_k1_pawn_pushes_complete_white() {
+    pawn_obligation_on(2, Half::Complete, true, Color::White)
+}
+
+#[kani::proof]
+#[kani::unwind(9)]
+fn c01_k1_pawn_pushes_complete_black() {
+    pawn_obligation_on(2, Half::Complete, true, Color::Black)
 }
 
 #[kani::proof]
